@@ -42,10 +42,10 @@ Proof. reflexivity. Qed.
 
 Lemma step_kind : forall p h o p' o', step p h o = Some (p', o') -> is_identity p' = is_identity p.
 Proof.
-  intros [st|st|ln| |] h o p' o' H; simpl in H.
+  intros [st|st| | |] h o p' o' H; simpl in H.
   - destruct (sh_step st h o) as [[st' o1]|]; inversion H; reflexivity.
   - destruct (ex_step st h o) as [[st' o1]|]; inversion H; reflexivity.
-  - destruct (fr_step ln h o); inversion H; reflexivity.
+  - destruct (fr_step h o); inversion H; reflexivity.
   - inversion H; reflexivity.
   - inversion H; reflexivity.
 Qed.
@@ -474,15 +474,14 @@ Proof.
 Qed.
 
 (* ClientForwardRefs: only annotations change and one import statement is put in front of the body *)
-Theorem forward_refs_request_unchanged : forall ln ic m m' a b C,
-  fr_method ln ic m = Some (m', a, b) -> request_of C m' = request_of C m.
+Theorem forward_refs_request_unchanged : forall ic m m' a b C,
+  fr_method ic m = Some (m', a, b) -> request_of C m' = request_of C m.
 Proof.
-  intros ln ic m m' a b C H. unfold fr_method in H.
+  intros ic m m' a b C H. unfold fr_method in H.
   destruct (match m_returns m with Some a0 => let '(a', ns) := fr_ann ic a0 in (Some a', ns) | None => (None, []) end)
     as [ret rnames].
   destruct (fr_last_class (m_body m)) as [cls|]; [|inversion H; reflexivity].
-  destruct (lookup cls ic) as [from|]; [inversion H; subst; reflexivity|].
-  destruct ln; [inversion H; subst; reflexivity|discriminate].
+  destruct (lookup cls ic) as [from|]; inversion H; subst; reflexivity.
 Qed.
 
 (* ExtractOperations on the shape the generator emits: [query = gql(doc); variables = ..; call(query=query) ...] *)
@@ -584,11 +583,11 @@ Definition plain_hook (h : hook) : bool :=
 Lemma step_estates_plain : forall p h o p' o', plain_hook h = true -> step p h o = Some (p', o') ->
   estates [p'] = estates [p].
 Proof.
-  intros [st|st|ln| |] h o p' o' Hh H; simpl in H.
+  intros [st|st| | |] h o p' o' Hh H; simpl in H.
   - destruct (sh_step st h o) as [[st' o1]|]; inversion H; reflexivity.
   - destruct h; try discriminate; destruct o; simpl in H; try (inversion H; reflexivity).
     + destruct (ex_method st opname kind m); inversion H; reflexivity.
-  - destruct (fr_step ln h o); inversion H; reflexivity.
+  - destruct (fr_step h o); inversion H; reflexivity.
   - inversion H; reflexivity.
   - inversion H; reflexivity.
 Qed.
@@ -657,7 +656,7 @@ Proof.
   - destruct (step p (HClientMethod n k) (OMethod m)) as [[p1 o1]|] eqn:Es; [|discriminate].
     destruct (apply_hook r (HClientMethod n k) o1) as [[r' o2]|] eqn:Er; [|discriminate]. inversion H; subst.
     rewrite estates_cons in *.
-    destruct p as [st|st|ln| |]; simpl in Es;
+    destruct p as [st|st| | |]; simpl in Es;
       try (inversion Es; subst; simpl in *; eapply IH; eauto; fail).
     destruct (ex_method st n k m) as [m1|] eqn:Em; [|discriminate]. inversion Es; subst.
     simpl in Hl. assert (Hr : estates r = []) by (destruct (estates r); [reflexivity|simpl in Hl; lia]).
@@ -675,26 +674,26 @@ Proof.
     rewrite (shorter_request_unchanged _ _ _ _ C Em), (IH _ _ _ Er C). reflexivity.
 Qed.
 
-Lemma fr_methods_requests : forall ln ic ms ms' a b, fr_methods ln ic ms = Some (ms', a, b) ->
+Lemma fr_methods_requests : forall ic ms ms' a b, fr_methods ic ms = Some (ms', a, b) ->
   forall C, map (request_of C) ms' = map (request_of C) ms.
 Proof.
-  intros ln ic. induction ms as [|m r IH]; intros ms' a b H C; simpl in H.
+  intros ic. induction ms as [|m r IH]; intros ms' a b H C; simpl in H.
   - inversion H; reflexivity.
-  - destruct (fr_method ln ic m) as [[[m1 a1] b1]|] eqn:Em; [|discriminate].
-    destruct (fr_methods ln ic r) as [[[r2 a2] b2]|] eqn:Er; [|discriminate]. inversion H; subst. simpl.
-    rewrite (forward_refs_request_unchanged _ _ _ _ _ _ C Em), (IH _ _ _ eq_refl C). reflexivity.
+  - destruct (fr_method ic m) as [[[m1 a1] b1]|] eqn:Em; [|discriminate].
+    destruct (fr_methods ic r) as [[[r2 a2] b2]|] eqn:Er; [|discriminate]. inversion H; subst. simpl.
+    rewrite (forward_refs_request_unchanged _ _ _ _ _ C Em), (IH _ _ _ eq_refl C). reflexivity.
 Qed.
 
 Lemma step_client_requests : forall p c p' o', step p HClientModule (OClient c) = Some (p', o') ->
   exists c', o' = OClient c' /\ forall C, map (request_of C) (cm_methods c') = map (request_of C) (cm_methods c).
 Proof.
-  intros [st|st|ln| |] c p' o' H; simpl in H.
+  intros [st|st| | |] c p' o' H; simpl in H.
   - unfold sh_client in H. destruct (sh_methods st (cm_methods c)) as [[st1 ms]|] eqn:Em; [|discriminate].
     destruct (sh_extend_imports (cm_imports c) (sh_extended st1)) as [imports1 rest]. inversion H; subst.
     eexists. split; [reflexivity|]. intros C. simpl. eapply sh_methods_requests; eauto.
   - inversion H; subst. eexists. split; [reflexivity|]. reflexivity.
   - unfold fr_client in H.
-    destruct (fr_methods ln (fr_imported (cm_imports c)) (cm_methods c)) as [[[ms a] b]|] eqn:Em; [|discriminate].
+    destruct (fr_methods (fr_imported (cm_imports c)) (cm_methods c)) as [[[ms a] b]|] eqn:Em; [|discriminate].
     destruct (dedup a ++ b) eqn:Ed.
     + inversion H; subst. eexists. split; [reflexivity|]. intros C. simpl. eapply fr_methods_requests; eauto.
     + destruct (fr_tc_imports (fr_imported (cm_imports c)) (dedup a)); [|discriminate]. inversion H; subst.
